@@ -145,6 +145,13 @@ recipe('Zero/rn3->rn2', [DEFAULT + 'ZeroOperator'], linear=True, deriv=True)(
     lambda ctx: odl.ZeroOperator(R(3), R(2)))
 recipe('Multiply/scalar-field', [DEFAULT + 'MultiplyOperator'], linear=True, deriv=True)(
     lambda ctx: odl.MultiplyOperator(ctx.real('m'), domain=R(3), range=R(3)))
+# multiplicands that are not space elements: a plain ndarray (symbolic entries) and a list
+recipe('Multiply/ndarray-multiplicand', [DEFAULT + 'MultiplyOperator'], linear=True, deriv=True)(
+    lambda ctx: odl.MultiplyOperator(ctx.array('m', (3,), 'float64'), domain=R(3), range=R(3)))
+recipe('Multiply/ndarray-multiplicand/discr', [DEFAULT + 'MultiplyOperator'], linear=True, deriv=True)(
+    lambda ctx: odl.MultiplyOperator(ctx.array('m', (3,), 'float64'), domain=D3(), range=D3()))
+recipe('Multiply/list-multiplicand', [DEFAULT + 'MultiplyOperator'], linear=True, deriv=True)(
+    lambda ctx: odl.MultiplyOperator([2.0, -0.5, 4.0], domain=R(3), range=R(3)))
 recipe('Multiply/field-domain', [DEFAULT + 'MultiplyOperator'], linear=True, deriv=True)(
     lambda ctx: odl.MultiplyOperator(ctx.element(W3(), 'm'), domain=W3().field))
 recipe('Multiply/field-domain-cn', [DEFAULT + 'MultiplyOperator'], linear=True, deriv=True, cplx=True)(
